@@ -5,7 +5,7 @@
    model operation returned [ROk v] (no Rust panic, in particular no failed `degree()`
    assert, no fuel exhaustion), v is canonical, and v evaluates to f x at every x. *)
 From V Require Import Base.Field C08.Model C08.Common C08.DenseProofs C08.SparseAdd C08.SparseMul
-  C08.MixedProofs C08.Division C08.Vanishing C08.DomainProofs.
+  C08.MixedProofs C08.Division C08.Vanishing C08.DomainProofs C08.FftMul.
 Require Import Field_theory.
 
 Section C08.
@@ -142,6 +142,16 @@ Section C08.
     pown F g n = f1 F -> (forall k, (0 < k < n)%nat -> pown F g k <> f1 F) -> h <> f0 F ->
     of_nat F n <> f0 F -> interpolate F (d_eval_over_domain F p n h g) n h g = ROk p.
   Proof. exact (roundtrip_spec F Fth eqb_ok). Qed.
+
+  (* the pipeline of the FFT-based `Mul` (evaluate both operands over a domain of size
+     n >= len p + len q - 1, multiply pointwise, interpolate), with exact transforms,
+     is the specified operator [d_mul] *)
+  Theorem C08_fft_mul_pipeline : forall p q n g, canon F p -> canon F q ->
+    (length p + length q <= n + 1)%nat -> (0 < n)%nat -> pown F g n = f1 F ->
+    (forall k, (0 < k < n)%nat -> pown F g k <> f1 F) -> of_nat F n <> f0 F ->
+    interpolate F (ev_mul F (d_eval_over_domain F p n (f1 F) g) (d_eval_over_domain F q n (f1 F) g))
+      n (f1 F) g = d_mul F p q.
+  Proof. exact (fft_mul_pipeline F Fth eqb_ok). Qed.
 
   (* ---- Evaluations: pointwise operators ---- *)
   Theorem C08_ev_add : forall a b i, length a = length b ->
